@@ -6,7 +6,10 @@ import BM.Gen.SrcPins
 namespace BM.Props
 
 def C06_units : List (String × String) := [
-  ("sanitize.go/func/*Policy.sanitize/case:html.TextToken", "c2658786898b5dd8")
+  ("sanitize.go/func/*Policy.sanitize/case:html.StartTagToken", "06e5b6a502de1bc0"),
+  ("sanitize.go/func/*Policy.sanitize/case:html.EndTagToken", "13ba196cca634709"),
+  ("sanitize.go/func/*Policy.sanitize/case:html.TextToken", "c2658786898b5dd8"),
+  ("sanitize.go/func/*Policy.sanitize/around-switch", "cd2e2ace16007f49")
 ]
 
 set_option maxRecDepth 100000 in
